@@ -13,8 +13,28 @@ def warm_metrics():
     return len(D.DISTANCES)
 
 
+def warm_dtypes(names=None):
+    """float32 / int64 / mixed specialisations used by the dtype alphabets (C07, C10, C15)."""
+    import numpy as np
+    import opfython.math.distance as D
+    xf, yf = np.array([0.25, 0.5], dtype=np.float32), np.array([0.5, 0.25], dtype=np.float32)
+    xi, yi = np.array([1, 2], dtype=np.int64), np.array([3, 1], dtype=np.int64)
+    xd = np.array([0.5, 1.5])
+    for name, fn in D.DISTANCES.items():
+        if names is not None and name not in names:
+            continue
+        fn(xf.copy(), yf.copy())
+        try:
+            fn(xi.copy(), yi.copy())
+            fn(xi.copy(), xd.copy())
+            fn(xd.copy(), xi.copy())
+        except Exception:
+            pass
+
+
 if __name__ == "__main__":
     bind_repo()
     n = warm_metrics()
-    print("warmed %d metrics" % n)
+    warm_dtypes()
+    print("warmed %d metrics (float64, float32, int64, mixed)" % n)
     sys.exit(0)
